@@ -12,6 +12,7 @@
 package c19
 
 import (
+	"bytes"
 	"context"
 	"encoding/json"
 	"fmt"
@@ -33,11 +34,12 @@ type Case struct {
 	Closed bool   `json:"closed"`
 	// timed helpers
 	Mode  string `json:"mode,omitempty"` // long|zero|neg|min|short|tiny (timeouts)  live|cancelled|cancel_late (contexts)
-	Sit   string `json:"sit,omitempty"`  // alone|partner|partner_late|close_late
+	Sit   string `json:"sit,omitempty"`  // alone|partner|partner_late|close_late|parked|partner_after
 	Value int    `json:"value,omitempty"`
 	Ns    int64  `json:"ns,omitempty"` // mode "ns": the timeout in nanoseconds
 	// queued receivers
-	Limit int `json:"limit,omitempty"`
+	Limit  int   `json:"limit,omitempty"`
+	Parked []int `json:"parked,omitempty"` // values of sender goroutines parked on the (full) channel before the call, oldest first
 	// QueuedConcurrent
 	N int `json:"n,omitempty"`
 	// large-size stream: checked by the direct oracle only, not sent to the model (a replay always is)
@@ -119,6 +121,114 @@ const (
 
 var stuck int // calls that never returned (only with a broken implementation); the run stops early
 
+// ---- reading goroutine states off runtime.Stack (the only way to know that a goroutine IS parked) ----
+
+var stackBuf = make([]byte, 1<<18)
+
+// parkedCount counts the goroutines that have a frame containing marker and are parked on a channel operation.
+func parkedCount(marker string) int {
+	n := runtime.Stack(stackBuf, true)
+	for n >= len(stackBuf) {
+		stackBuf = make([]byte, 2*len(stackBuf))
+		n = runtime.Stack(stackBuf, true)
+	}
+	count := 0
+	for _, g := range bytes.Split(stackBuf[:n], []byte("\n\n")) {
+		if !bytes.Contains(g, []byte(marker)) {
+			continue
+		}
+		lb, rb := bytes.IndexByte(g, '['), bytes.IndexByte(g, ']')
+		if lb < 0 || rb < lb {
+			continue
+		}
+		state := string(g[lb+1 : rb])
+		if k := strings.IndexByte(state, ','); k >= 0 {
+			state = state[:k]
+		}
+		switch state {
+		case "chan send", "chan receive", "select", "chan send (nil chan)", "chan receive (nil chan)", "select (no cases)":
+			count++
+		}
+	}
+	return count
+}
+
+const (
+	markPartner = "harness/c19.partner" // partnerSend / partnerRecv
+	markHelper  = "typ.v4/chans."       // any frame of the package under test
+)
+
+// waitParked waits until want goroutines with the marker are parked on a channel operation, or done is closed.
+// No fixed sleep is trusted: it polls the goroutine states. ok=false: neither happened within a very long time.
+func waitParked(marker string, want int, done <-chan struct{}) (parked, ok bool) {
+	deadline := time.Now().Add(60 * time.Second)
+	for i := 0; ; i++ {
+		select {
+		case <-done:
+			return false, true
+		default:
+		}
+		if parkedCount(marker) >= want {
+			return true, true
+		}
+		if i < 50 {
+			runtime.Gosched()
+		} else {
+			time.Sleep(100 * time.Microsecond)
+		}
+		if i%64 == 63 && time.Now().After(deadline) {
+			return false, false
+		}
+	}
+}
+
+// await receives the result of a call that runs in its own goroutine. After the watchdog it does not give up
+// at once (the machine may have been stalled): the call gets more time, and it is reported as blocked only
+// when a goroutine with the marker (the code under test, or a partner) IS parked on a channel operation (one-sided: a slow machine
+// never produces "blocked"), or as not returning after a very long time.
+func await[T any](ch <-chan T, marker string) (v T, status string) {
+	t := time.NewTimer(watchdog)
+	defer t.Stop()
+	select {
+	case v = <-ch:
+		return v, ""
+	case <-t.C:
+	}
+	for i := 0; i < 24000; i++ { // up to ~2 more minutes of running time
+		select {
+		case v = <-ch:
+			return v, ""
+		default:
+		}
+		time.Sleep(5 * time.Millisecond)
+		if i >= 200 && i%100 == 0 && parkedCount(marker) > 0 {
+			select {
+			case v = <-ch:
+				return v, ""
+			default:
+			}
+			return v, "seen parked on a channel operation"
+		}
+	}
+	return v, "not parked, but did not return for two minutes"
+}
+
+//go:noinline
+func partnerRecv(ch chan int, got *[]int, done chan struct{}) {
+	defer close(done)
+	if v, ok := <-ch; ok {
+		*got = append(*got, v)
+	}
+}
+
+//go:noinline
+func partnerSend(ch chan int, v int, sent *bool, done chan struct{}) {
+	defer close(done)
+	if core.Try(func() { ch <- v }) == "" {
+		*sent = true
+	}
+}
+
 func init() {
 	core.Register(&core.Prop{ID: "C19", Module: "Chans.HelpersCheck", Run: run, Replay: replay})
 }
@@ -142,7 +252,13 @@ func seq(n, from int) []int {
 
 var timeoutModes = []string{"long", "zero", "neg", "min", "short", "tiny"}
 var ctxModes = []string{"live", "cancelled", "cancel_late"}
-var sits = []string{"alone", "partner", "partner_late", "close_late"}
+var sits = []string{"alone", "partner", "partner_late", "close_late", "parked", "partner_after"}
+
+// closesAtEnd: scenarios in which the partner may be left parked; the harness then closes the channel to release it
+// (after having seen, on runtime.Stack, that the partner is parked or has finished).
+func closesAtEnd(cs Case) bool {
+	return cs.Sit == "parked" || cs.Sit == "partner_after" || (cs.Sit == "partner_late" && !unlimitedCase(cs))
+}
 
 func modesOf(fn string) []string {
 	if strings.HasSuffix(fn, "Timeout") {
@@ -170,6 +286,16 @@ func valid(cs Case) bool {
 	if cs.Sit == "close_late" && isSend && ready {
 		return false // would the send or the close come first? depends on timing
 	}
+	switch cs.Sit {
+	case "parked": // the partner must really park: a receiver on an empty channel, a sender on a full one
+		return !cs.Closed && ((isSend && nfill(cs) == 0) || (!isSend && nfill(cs) == cs.Cap))
+	case "partner_after": // the helper gives up first (deterministically), the partner comes afterwards
+		return !cs.Closed && !ready && !unlimitedCase(cs)
+	case "partner_late":
+		if !cs.Closed && !ready && !unlimitedCase(cs) && cs.Mode != "cancelled" {
+			return true // limited timer against a late partner: either may win
+		}
+	}
 	if cs.Sit != "alone" {
 		return unlimitedCase(cs) && !cs.Closed
 	}
@@ -195,6 +321,23 @@ func run(c *core.Ctx) {
 	c.Exhaustive = true
 	c.Note(fmt.Sprintf("exhaustive: RecvQueued/RecvQueuedFull for all cap<=%d x fill<=cap x open/closed x limit -1..%d; "+
 		"timed helpers: all (mode, situation) scenarios with a waitable outcome for cap<=3 x fill<=cap x open/closed", maxCap, maxLim))
+	// RecvQueued / RecvQueuedFull with senders already parked on the full (or unbuffered) channel: exhaustive small scope, exact
+	for cp := 0; cp <= c.N(3, 4, 4); cp++ {
+		for np := 1; np <= 3; np++ {
+			for lim := 0; lim <= cp+np+1; lim++ {
+				for _, fn := range []string{"RecvQueued", "RecvQueuedFull"} {
+					exec(c, Case{Fn: fn, Cap: cp, Fill: seq(cp, 1), Parked: seq(np, 50), Limit: lim})
+				}
+			}
+		}
+	}
+	for i := c.N(60, 1500, 800); i > 0 && stuck < 3; i-- {
+		cp := c.Rng.Size(c.N(20, 100, 100))
+		np := 1 + c.Rng.Intn(6)
+		fn := []string{"RecvQueued", "RecvQueuedFull"}[c.Rng.Intn(2)]
+		exec(c, Case{Fn: fn, Cap: cp, Fill: c.Rng.Ints(cp, -2, 3), Parked: c.Rng.Ints(np, -2, 3), Limit: c.Rng.Range(0, cp+np+2)})
+	}
+	exec(c, Case{Fn: "NilChan", NoModel: true})
 	// random: larger channels, repeated values (zero values included: a closed channel must not look like queued zeros)
 	for i := c.N(300, 6000, 3000); i > 0 && stuck < 3; i-- {
 		cp := c.Rng.Size(c.N(40, 200, 200))
@@ -286,15 +429,12 @@ func execDrain(c *core.Ctx, cs Case) {
 			}
 		})
 	}()
-	select {
-	case kind := <-fin:
-		if kind != "" {
-			c.Fail("panic", kind)
-		}
-	case <-time.After(watchdog):
+	if kind, status := await(fin, markHelper); status != "" {
 		stuck++
-		c.Fail("call blocked", "draining with RecvQueued/RecvQueuedFull did not finish")
+		c.Fail("call blocked", "draining with RecvQueued/RecvQueuedFull did not finish ("+status+")")
 		return
+	} else if kind != "" {
+		c.Fail("panic", kind)
 	}
 	c.Nontrivial()
 	if msg != "" {
@@ -509,7 +649,13 @@ func exec(c *core.Ctx, cs Case) {
 	}
 	switch cs.Fn {
 	case "RecvQueued", "RecvQueuedFull":
-		execQueued(c, cs)
+		if len(cs.Parked) > 0 {
+			execQueuedParked(c, cs)
+		} else {
+			execQueued(c, cs)
+		}
+	case "NilChan":
+		execNil(c, cs)
 	case "QueuedConcurrent":
 		execConcurrent(c, cs)
 	case "TimerRaceSend", "TimerRaceRecv":
@@ -575,12 +721,10 @@ func execQueued(c *core.Ctx, cs Case) {
 			}
 		})
 	}()
-	var kind string
-	select {
-	case kind = <-resc:
-	case <-time.After(watchdog):
+	kind, status := await(resc, markHelper)
+	if status != "" {
 		stuck++
-		c.Fail("call blocked", fmt.Sprintf("%s did not return within %v; it must never block", cs.Fn, watchdog))
+		c.Fail("call blocked", fmt.Sprintf("%s did not return (%s); it must never block", cs.Fn, status))
 		emit(coqCase(cs, before, fmt.Sprintf("[SHelp %d]", n+2), false, true, "OBlocked", nil, cs.Closed, nil))
 		return
 	}
@@ -628,6 +772,182 @@ func execQueued(c *core.Ctx, cs Case) {
 	emit(coqCase(cs, before, fmt.Sprintf("[SHelp %d]", n+2), false, true, res, left, closedAfter, nil))
 }
 
+// execQueuedParked: RecvQueued / RecvQueuedFull on a full (or unbuffered) channel on which sender goroutines are
+// already parked. The senders are started one after the other, each only after the previous one has been SEEN
+// parked (runtime.Stack), so their order in the channel's wait queue is known; after the call the harness reads
+// len(ch) and the number of senders still parked, then drains the channel. Exact: Go hands out the buffered
+// values followed by the parked senders' values, each parked sender completing as its value moves in.
+func execQueuedParked(c *core.Ctx, cs Case) {
+	ch := mkchan(cs) // open, len(Fill) == Cap
+	np := len(cs.Parked)
+	n := cs.Limit
+	if n < 0 {
+		n = 0
+	}
+	base := parkedCount(markPartner)
+	sent := make([]bool, np)
+	dones := make([]chan struct{}, np)
+	sched := []string{}
+	for i, v := range cs.Parked {
+		dones[i] = make(chan struct{})
+		go partnerSend(ch, v, &sent[i], dones[i])
+		if parked, ok := waitParked(markPartner, base+i+1, dones[i]); !ok || !parked {
+			c.Unobservable("C19 gate: a sender goroutine was never seen parked on the full channel")
+			drain(ch)
+			return
+		}
+		sched = append(sched, "SSend "+core.Z(v))
+	}
+	sched = append(sched, fmt.Sprintf("SExpect %d %d 0", len(ch), parkedCount(markPartner)-base))
+	var slice []int
+	if cs.Fn == "RecvQueuedFull" {
+		slice = seq(n, 900)
+	}
+	before := append([]int{}, slice...)
+	var got []int
+	var cnt int
+	resc := make(chan string, 1)
+	go func() {
+		resc <- core.Try(func() {
+			if cs.Fn == "RecvQueued" {
+				got = chans.RecvQueued(ch, cs.Limit)
+			} else {
+				cnt = chans.RecvQueuedFull(ch, slice)
+				got = slice[:cnt]
+			}
+		})
+	}()
+	kind, status := await(resc, markHelper)
+	if status != "" {
+		stuck++
+		c.Fail("call blocked", fmt.Sprintf("%s did not return (%s); it must never block", cs.Fn, status))
+		return
+	}
+	// every sender has now either completed or is still parked: wait until that is what the goroutine states say
+	nbuf, left := -1, -1
+	deadline := time.Now().Add(60 * time.Second)
+	for i := 0; ; i++ {
+		finished := 0
+		for _, d := range dones {
+			select {
+			case <-d:
+				finished++
+			default:
+			}
+		}
+		if l := parkedCount(markPartner) - base; finished+l == np {
+			nbuf, left = len(ch), l
+			break
+		}
+		runtime.Gosched()
+		if i > 50 {
+			time.Sleep(100 * time.Microsecond)
+		}
+		if i%64 == 63 && time.Now().After(deadline) {
+			c.Unobservable("C19 gate: sender goroutines neither finished nor parked after the call")
+			return
+		}
+	}
+	sched = append(sched, fmt.Sprintf("SHelp %d", n+2), fmt.Sprintf("SExpect %d %d 0", nbuf, left))
+	rest, closedAfter := drain(ch) // releases the senders that were still parked, in order
+	for _, d := range dones {
+		if _, status := await(d, markPartner); status != "" {
+			stuck++
+			c.Fail("partner stuck", "a parked sender never completed although the channel was drained ("+status+")")
+			return
+		}
+	}
+	for range rest {
+		sched = append(sched, "SRecv")
+	}
+	c.Nontrivial()
+	c.Count("parked_senders")
+	// direct oracle
+	q := append(append([]int{}, cs.Fill...), cs.Parked...)
+	k := n
+	if len(q) < k {
+		k = len(q)
+	}
+	moved := k // parked senders that completed during the call
+	if moved > np {
+		moved = np
+	}
+	res := "OList " + core.ZList(got)
+	if cs.Fn == "RecvQueuedFull" {
+		res = fmt.Sprintf("OFull %s %s", core.Z(cnt), core.ZList(slice))
+	}
+	if kind != "" {
+		c.Fail("panic", kind)
+		res = "OPanic " + kind
+	} else {
+		if !core.Eq(got, q[:k]) {
+			c.Fail(cs.Fn+" result is not the queued prefix (buffered values, then parked senders' values)", diff(got, q[:k]))
+		}
+		if cs.Fn == "RecvQueuedFull" && !core.Eq(slice[k:], before[k:]) {
+			c.Fail("RecvQueuedFull buffer", "the rest of buf was touched: "+diff(slice[k:], before[k:]))
+		}
+	}
+	if left != np-moved || nbuf != len(q)-k-(np-moved) {
+		c.Fail("channel state after the call", fmt.Sprintf("%d buffered and %d senders parked, want %d and %d", nbuf, left, len(q)-k-(np-moved), np-moved))
+	}
+	if !core.Eq(rest, q[k:]) {
+		c.Fail("channel contents after the call", "drained (buffer, then parked senders): "+diff(rest, q[k:]))
+	}
+	for i, ok := range sent {
+		if !ok {
+			c.Fail("a parked sender's send did not complete", fmt.Sprint(i))
+		}
+	}
+	if closedAfter {
+		c.Fail("closed state changed", "")
+	}
+	if !cs.NoModel {
+		c.Emit(coqCase(cs, before, "["+strings.Join(sched, "; ")+"]", false, true, res, nil, false, rest))
+	}
+}
+
+// execNil: nil channels are outside the model; this probe is their only cover. A receive from / send to a nil
+// channel never proceeds: the queued receivers return nothing at once, the timed helpers give up through their
+// timer / context (with timeout <= 0 they would wait forever: not run).
+func execNil(c *core.Ctx, cs Case) {
+	var ch chan int
+	fin := make(chan string, 1)
+	msg := ""
+	go func() {
+		fin <- core.Try(func() {
+			if got := chans.RecvQueued(ch, 5); len(got) != 0 {
+				msg += fmt.Sprintf("RecvQueued(nil, 5) = %v; ", got)
+			}
+			buf := []int{9, 9, 9}
+			if n := chans.RecvQueuedFull(ch, buf); n != 0 || !core.Eq(buf, []int{9, 9, 9}) {
+				msg += fmt.Sprintf("RecvQueuedFull(nil, buf) = %d, buf %v; ", n, buf)
+			}
+			if chans.SendTimeout(ch, 1, late) {
+				msg += "SendTimeout(nil) = true; "
+			}
+			if v, ok := chans.RecvTimeout(ch, late); ok || v != 0 {
+				msg += fmt.Sprintf("RecvTimeout(nil) = (%d,%v); ", v, ok)
+			}
+			ctx, cancel := context.WithCancel(context.Background())
+			cancel()
+			if chans.SendContext(ctx, ch, 1) {
+				msg += "SendContext(cancelled, nil) = true; "
+			}
+			if v, ok := chans.RecvContext(ctx, (<-chan int)(ch)); ok || v != 0 {
+				msg += fmt.Sprintf("RecvContext(cancelled, nil) = (%d,%v); ", v, ok)
+			}
+		})
+	}()
+	if kind, status := await(fin, markHelper); status != "" {
+		stuck++
+		c.Fail("call blocked", "a helper blocked on a nil channel where it must return ("+status+")")
+	} else if kind != "" {
+		c.Fail("panic", kind)
+	} else if msg != "" {
+		c.Fail("nil channel", msg)
+	}
+}
+
 // execConcurrent: a producer sends 1..N and closes while the consumer polls with
 // RecvQueued / RecvQueuedFull; everything received, in order, must be exactly 1..N.
 func execConcurrent(c *core.Ctx, cs Case) {
@@ -673,15 +993,12 @@ func execConcurrent(c *core.Ctx, cs Case) {
 			}
 		})
 	}()
-	select {
-	case kind := <-fin:
-		if kind != "" {
-			c.Fail("panic", kind)
-		}
-	case <-time.After(watchdog):
+	if kind, status := await(fin, markHelper); status != "" {
 		stuck++
-		c.Fail("call blocked", "consumer did not finish")
+		c.Fail("call blocked", "consumer did not finish ("+status+")")
 		return
+	} else if kind != "" {
+		c.Fail("panic", kind)
 	}
 	c.Nontrivial()
 	if !core.Eq(all, seq(cs.N, 1)) {
@@ -751,25 +1068,41 @@ func execTimedOnce(c *core.Ctx, cs Case, report bool) bool {
 	var envRcvd []int
 	partnerSent := false
 	partner := func() {
-		defer close(partnerDone)
 		if isSend {
-			if v, ok := <-ch; ok {
-				envRcvd = append(envRcvd, v)
-			}
-		} else if core.Try(func() { ch <- cs.Value }) == "" {
-			partnerSent = true
+			partnerRecv(ch, &envRcvd, partnerDone)
+		} else {
+			partnerSend(ch, cs.Value, &partnerSent, partnerDone)
 		}
 	}
+	base := 0 // partner goroutines of earlier (failed) cases that are parked for good
+	if cs.Sit == "parked" || closesAtEnd(cs) {
+		base = parkedCount(markPartner)
+	}
+	observed := "" // what was seen on runtime.Stack / len(ch) at the gate, for the model
 	switch cs.Sit {
 	case "partner":
 		go partner()
 		for i := 0; i < 20; i++ {
 			runtime.Gosched() // usually enough for the partner to be parked; the outcome does not depend on it
 		}
+	case "parked":
+		go partner()
+		parked, ok := waitParked(markPartner, base+1, partnerDone)
+		if !ok || !parked {
+			c.Unobservable("C19 gate: the partner goroutine was never seen parked on the channel")
+			close(ch)
+			return true
+		}
+		if isSend {
+			observed = fmt.Sprintf("SExpect %d 0 1", len(ch))
+		} else {
+			observed = fmt.Sprintf("SExpect %d 1 0", len(ch))
+		}
 	case "partner_late":
 		go func() { time.Sleep(late); partner() }()
 	case "close_late":
 		go func() { time.Sleep(late); close(ch); close(partnerDone) }()
+	case "partner_after": // started below, once the helper has returned
 	default:
 		close(partnerDone)
 	}
@@ -798,22 +1131,30 @@ func execTimedOnce(c *core.Ctx, cs Case, report bool) bool {
 		resc <- o
 	}()
 	sched, exact := plan(cs, isSend)
-	var o out
-	select {
-	case o = <-resc:
-	case <-time.After(watchdog):
+	sched = strings.Replace(sched, "SExpect@", observed, 1)
+	o, status := await(resc, markHelper)
+	if status != "" {
 		stuck++
-		c.Fail("call blocked", fmt.Sprintf("%s did not return within %v in a scenario where it must", cs.Fn, watchdog))
+		c.Fail("call blocked", fmt.Sprintf("%s did not return in a scenario where it must (%s)", cs.Fn, status))
 		if !cs.NoModel {
 			c.Emit(coqCase(cs, nil, sched, doneAtCall, exact, "OBlocked", nil, cs.Closed, nil))
 		}
 		return true
 	}
-	select {
-	case <-partnerDone:
-	case <-time.After(watchdog):
+	if cs.Sit == "partner_after" {
+		go partner()
+	}
+	if closesAtEnd(cs) {
+		// the partner has finished, or is parked for good (seen on runtime.Stack): only then release it by closing
+		if _, ok := waitParked(markPartner, base+1, partnerDone); !ok {
+			c.Unobservable("C19 gate: the partner goroutine neither finished nor parked")
+			return true
+		}
+		close(ch)
+	}
+	if _, status := await(partnerDone, markPartner); status != "" {
 		stuck++
-		c.Fail("partner stuck", fmt.Sprintf("%s returned %+v but the partner goroutine never completed its operation", cs.Fn, o))
+		c.Fail("partner stuck", fmt.Sprintf("%s returned %+v but the partner goroutine never completed its operation (%s)", cs.Fn, o, status))
 		if !cs.NoModel {
 			c.Emit(coqCase(cs, nil, sched, doneAtCall, exact, "OBlocked", nil, cs.Closed, nil))
 		}
@@ -866,7 +1207,7 @@ func execTimedOnce(c *core.Ctx, cs Case, report bool) bool {
 			fail("conservation", fmt.Sprintf("result %s: values that entered %v, values received then left in the channel %v", res, in, outv))
 		}
 	}
-	if closedAfter != (cs.Closed || cs.Sit == "close_late") {
+	if closedAfter != (cs.Closed || cs.Sit == "close_late" || closesAtEnd(cs)) {
 		fail("closed state", fmt.Sprint(closedAfter))
 	}
 	if exact {
@@ -900,9 +1241,24 @@ func plan(cs Case, isSend bool) (sched string, exact bool) {
 	case "partner":
 		return "[" + p + "; SHelp 1]", true
 	case "partner_late":
-		return "[SHelp 1; " + p + "; SHelp 1]", true
+		if unlimitedCase(cs) {
+			return "[SHelp 1; " + p + "; SHelp 1]", true
+		}
 	case "close_late":
 		return "[SHelp 1; SClose; SHelp 1]", true
+	case "parked": // SExpect@ is replaced by what the gate observed: len(ch) and the parked partner
+		switch {
+		case unlimitedCase(cs):
+			return "[" + p + "; SExpect@; SHelp 1; SClose]", true
+		case cs.Mode == "cancelled":
+			return "[" + p + "; SExpect@; SHelp 1; SClose]", false
+		}
+		return "[" + p + "; SExpect@; SDone; SHelp 1; SClose]", false
+	case "partner_after":
+		return "[SHelp 1; SDone; SHelp 1; " + p + "; SClose]", true
+	}
+	if cs.Sit == "partner_late" && !unlimitedCase(cs) {
+		return "[SHelp 1; " + p + "; SDone; SHelp 1; SClose]", false
 	}
 	switch {
 	case unlimitedCase(cs):
@@ -926,13 +1282,18 @@ func expect(cs Case, isSend bool) string {
 			return "OPanic SendOnClosed"
 		case cs.Sit == "close_late" && !room:
 			return "OPanic SendOnClosed"
+		case cs.Sit == "partner_after":
+			return "OBool false"
 		case cs.Sit != "alone" || (room && unlimitedCase(cs)):
 			return "OBool true"
 		}
 		return "OBool false"
 	}
 	q := append([]int{}, cs.Fill...)
-	if cs.Sit == "partner" || cs.Sit == "partner_late" {
+	if cs.Sit == "partner_after" {
+		return "ORecv 0 false"
+	}
+	if cs.Sit == "partner" || cs.Sit == "partner_late" || cs.Sit == "parked" {
 		q = append(q, cs.Value)
 	}
 	if len(q) > 0 && (cs.Sit != "alone" || unlimitedCase(cs)) {
